@@ -1,5 +1,5 @@
 """Utility layer over exported facts: CFG, dominators, defs, alias classes, awaits."""
-import json, collections
+import json, collections, re
 
 
 class Facts:
@@ -18,6 +18,53 @@ class Facts:
                 self.bodies[b['id']] = Body(self, b)
             for a in d['adts']:
                 self.adts[a['id']] = a
+        self._stable = None
+
+    def stable_names(self):
+        """id / q -> position independent display name: impl blocks by their self type, closures without their ordinal,
+        so that adding an impl block or a closure elsewhere does not rename every later function"""
+        if self._stable is None:
+            m = {}
+
+            def nm(b, depth=0):
+                par = b.raw.get('parent')
+                if par and par in self.bodies and depth < 12:
+                    return nm(self.bodies[par], depth + 1) + '::{closure}'
+                return b.q
+            for b in self.bodies.values():
+                name = nm(b)
+                m[b.id] = name
+                m[b.q] = name
+            self._stable = sorted(m.items(), key=lambda kv: -len(kv[0]))
+        return self._stable
+
+    def stabilise(self, text):
+        if '{impl#' not in text and '{closure#' not in text:
+            return text
+        for old, new in self.stable_names():
+            if old in text and ('{impl#' in old or '{closure#' in old):
+                text = text.replace(old, new)
+        return re.sub(r'\{closure#\d+\}', '{closure}', text)
+
+
+def strip_generics(s):
+    """remove `::<...>` generic argument lists (balanced) from a pretty path"""
+    out, depth, i = [], 0, 0
+    while i < len(s):
+        if depth == 0 and s.startswith('::<', i):
+            depth = 1
+            i += 3
+            continue
+        if depth:
+            if s[i] == '<':
+                depth += 1
+            elif s[i] == '>' and s[i - 1] != '-':
+                depth -= 1
+            i += 1
+            continue
+        out.append(s[i])
+        i += 1
+    return ''.join(out)
 
 
 def succs(term):
